@@ -156,7 +156,23 @@ impl<'c, 'd> ProgGen<'c, 'd> {
         if self.cfg.obfuscate_16 > 0 && self.ch.chance(self.cfg.obfuscate_16, 16) {
             self.features.insert("type-level computation in an annotation");
             let fresh = self.fresh_name();
-            return Some(match self.ch.pick(8) {
+            // The innermost parameter of a base type, for the "vanishing dependency" form below.
+            let local: Option<(String, S)> = self.scope.iter().rev().filter(|e| !e.is_def).find_map(|e| match &*e.ty {
+                V::Int => Some((e.name.clone(), S::Int)),
+                V::Bool => Some((e.name.clone(), S::Bool)),
+                V::Type => Some((e.name.clone(), S::Type)),
+                _ => None,
+            });
+            let form = self.ch.pick(11);
+            if let (8..=10, Some((v, vt))) = (form, &local) {
+                // A constant type-level function applied to the type and to a parameter in scope:
+                // the written type mentions a local variable that disappears under normalisation
+                // (so it may be used where that variable is not in scope, but only once normalised).
+                let fresh2 = self.fresh_name();
+                self.features.insert("annotation that mentions a local variable which disappears under normalisation");
+                return Some(sast::app(sast::app(sast::lam(&fresh, Some(S::Type), sast::lam(&fresh2, Some(vt.clone()), sast::var(&fresh))), plain), sast::var(v)));
+            }
+            return Some(match form % 8 {
                 // A group with an unused definition whose *body* is the type (so the body of a
                 // group inside a type mentions whatever the type mentions).
                 7 => sast::let_(vec![(&fresh, Some(S::Type), S::Int)], plain),
